@@ -780,6 +780,28 @@ def _(T):
     return out
 
 
+@extractor("map_filter")
+def _(T):
+    """the if / elif / elif chain over site names in BaseFitter.find_MAP(purge_extra=True)"""
+    tree, _ = T["pysersic.py"]
+    fn = find_func(tree, "find_MAP", cls="BaseFitter")
+    for node in ast.walk(fn):
+        if isinstance(node, ast.If) and isinstance(node.test, ast.Name) and node.test.id == "purge_extra":
+            for st in node.body:
+                if isinstance(st, ast.For) and isinstance(st.target, ast.Name):
+                    var = st.target.id
+                    chain = st.body[0]
+                    if not isinstance(chain, ast.If) or not (chain.body and isinstance(chain.body[0], ast.Continue)):
+                        raise Miss("first branch of the purge chain is not `continue`")
+                    skip = name_test(chain.test, var)
+                    e1 = chain.orelse[0] if chain.orelse and isinstance(chain.orelse[0], ast.If) else None
+                    e2 = e1.orelse[0] if e1 is not None and e1.orelse and isinstance(e1.orelse[0], ast.If) else None
+                    if e1 is None or e2 is None or e2.orelse:
+                        raise Miss("purge chain is not if / elif / elif")
+                    return dict(skip=skip, model=name_test(e1.test, var), keep=name_test(e2.test, var))
+    raise Miss("purge loop of find_MAP not found")
+
+
 # ----------------------------------------------------------------------------
 # Lean emission
 # ----------------------------------------------------------------------------
@@ -879,6 +901,12 @@ def emit(c):
     A(f"def nAxLo : Q := {lean_q(rc['n_ax'][0])}")
     A(f"def nAxHi : Q := {lean_q(rc['n_ax'][1])}")
     A(f"def nAxNum : Nat := {rc['n_ax'][2][0]}")
+    A("")
+    mf = c["map_filter"]
+    A("/-- the if / elif / elif chain over site names in BaseFitter.find_MAP (pysersic.py), translated from the source -/")
+    A(f"def mapSkipTest : Results.NameTest := {lean_name_test(mf['skip'])}")
+    A(f"def mapModelTest : Results.NameTest := {lean_name_test(mf['model'])}")
+    A(f"def mapKeepTest : Results.NameTest := {lean_name_test(mf['keep'])}")
     A("")
     pc = c["prior_consts"]
     A("/-- constants of generate_prior, the SourceProperties setters and the sky priors (priors.py) -/")
